@@ -564,10 +564,19 @@ class World:
         for t in order:
             self.add(manifest_delete(repo, t))
             self.tags[repo].discard(t)
+        others = [(b, m_) for b, m_ in self.manifests[repo] if b != body]
+        if others and rng.random() < 0.5:
+            # another manifest, stored before, goes away by digest in between (removals reorder the entries of index.json: an
+            # entry of this manifest that lost its tag can end up in front of the one that still has one)
+            ob, om = others[0] if rng.random() < 0.7 else rng.choice(others)
+            self.add(manifest_delete(repo, dg("sha256", ob)))
+            self.manifests[repo] = [(b, m_) for b, m_ in self.manifests[repo] if b != ob]
         for t in rng.sample(tags, rng.randrange(1, 3)):
             self.add(manifest_put(repo, t, body, ctype=mt))
             self.tags[repo].add(t)
         self.add(tag_list(repo, None, None))
+        for t in tags:
+            self.add(manifest_get(repo, t, head=rng.random() < 0.5))
         if rng.random() < 0.4:
             self.add(manifest_delete(repo, dg("sha256", body)))
             self.add(tag_list(repo, None, None))
